@@ -110,6 +110,7 @@ func (tr *tokenReader) Next() bool {
 		return true
 	}
 	// find all byte-driven tokens
+	errsBefore := len(tr.errs)
 	tk, ok := tr.tree.findFirst(tr)
 	if len(tr.errs) != 0 {
 		lastErr := tr.errs[len(tr.errs)-1]
@@ -121,6 +122,10 @@ func (tr *tokenReader) Next() bool {
 			return false
 		}
 		// other errors should have been corrected
+	}
+	if !ok && len(tr.errs) > errsBefore {
+		// the read itself failed: there is no byte to put back
+		return false
 	}
 	if ok {
 		if tk.kind == tokenKindNewline {
@@ -216,7 +221,13 @@ func (tr *tokenReader) nextIdent(firstRune rune) bool {
 
 func (tr *tokenReader) skipFollowingWhitespace() {
 	for {
-		b, _ := tr.readByte()
+		b, err := tr.readByte()
+		if err != nil {
+			if err != io.EOF {
+				tr.addError(err)
+			}
+			return
+		}
 		switch b {
 		case '\n':
 			tr.loc.incLine()
